@@ -16,7 +16,8 @@ EXPLANATION = (
     "result is the `bbox` reference of the surviving candidates (subset of the input; lifetime witness in the thorough "
     "tier); (R14.5) cloning a box never carries its vertex cache (intersection relies on recomputing the polygon from "
     "the current fields). "
-    "(R14.7) the covered fraction rests on the intersection clauses shared with C08 (pre-filter wiring with both radii, clip of polygons of both boxes, fresh clones).")
+    "(R14.7) the covered fraction rests on the intersection clauses shared with C08 (pre-filter wiring with both radii, clip of polygons of both boxes, fresh clones)."
+    ' R14.1 also requires that nothing but option plumbing touches the rank (no clamp / arithmetic on the score).')
 NOT_DECIDED = ["maximality / independence / idempotence for concrete geometry", "exactness of the intersection area (C08, N/A)"]
 ASSUMPTIONS = ["itertools::sorted_by is a stable sort by the comparator", "rustc nightly MIR construction"]
 NMS = 'utils::nms::nms'
